@@ -66,7 +66,9 @@ def check_eq_hash(tree, what, bad):
             continue
         ret = p.end[1]
         tests = p.tests()
-        same = any(t[2] and t[1] in (('CMP', ('Is',), SELF, OTHER), ('CMP', ('Is',), OTHER, SELF)) for t in tests)
+        same = any(t[2] and t[1] in (('CMP', ('Is',), SELF, OTHER), ('CMP', ('Is',), OTHER, SELF)) for t in tests) \
+            or any((not t[2]) and t[1] in (('CMP', ('IsNot',), SELF, OTHER), ('CMP', ('IsNot',), OTHER, SELF))
+                   for t in tests)
         cls_ok = any(t[2] and t[1] in cls_tests for t in tests)
         cls_no = any((not t[2]) and t[1] in cls_tests for t in tests)
         loops = [s for s in p.steps if s[0] == 'LOOP']
@@ -247,7 +249,13 @@ def check_replace(tree, what, bad):
         member = (('CMP', ('NotIn',), ITEM, KW), True), (('CMP', ('In',), ITEM, KW), False)
         for lp in [s for s in p.steps if s[0] == 'LOOP']:
             for bp in lp[2]:
-                fill = [s for s in bp.steps if s[0] == 'E' and s[1] == 'substore' and s[2] == ('SUB', KW, ITEM)]
+                stores = [s for s in bp.steps if s[0] == 'E' and s[1] == 'substore' and s[2] == ('SUB', KW, ITEM)]
+                # `kw[f] = kw[f]` (the other arm of a conditional expression) changes nothing
+                stores = [s for s in stores if s[3] != ('SUB', KW, ITEM)]
+                fill = [s for s in stores if s[3] == ('CALL', ('VAR', 'getattr'), SELF, ITEM)]
+                for s_ in stores:
+                    if s_ not in fill:
+                        bad('C16-replace', f'{what}: _replace overwrites a field with {P.tfmt(s_[3])[:80]}')
                 absent = [t for t in bp.tests() if (t[1], t[2]) in member]
                 present = [t for t in bp.tests() if (t[1], not t[2]) in member]
                 others = [t for t in bp.tests() if t not in absent and t not in present]
@@ -280,6 +288,32 @@ def check_getattr_safety(tree, what, bad):
                 bad('C14-copy-safe', f'{what}: {cls.name}.__getattr__ reads self.{node.attr}, an attribute that only '
                                      f'__init__ creates: copy.deepcopy / pickle build the instance without '
                                      f'__init__ and probe it with getattr -> RecursionError')
+    return n
+
+
+COPY_HOOKS = ('__reduce__', '__reduce_ex__', '__getstate__', '__setstate__', '__copy__', '__deepcopy__',
+              '__getnewargs__', '__getnewargs_ex__')
+
+
+def check_copy_hooks(tree, what, bad):
+    """copy.copy / copy.deepcopy / pickle of a parsed object go through the default protocol, which carries the
+    whole instance state - position metadata included.  A class of the runtime that takes the protocol into its
+    own hands (`__reduce__`, `__getstate__`, `__deepcopy__` ...) must carry `_metadata` itself: rebuilding the
+    object from its fields alone gives an equal object without the position."""
+    n = 0
+    po = {c.name for c in load.classes_of(tree).values()
+          if c.name == 'ParsedObject' or any(ast.unparse(b).split('.')[-1] == 'ParsedObject' for b in c.bases)}
+    for cls in load.classes_of(tree).values():
+        if cls.name not in po:
+            continue
+        n += 1
+        for m in cls.body:
+            if isinstance(m, ast.FunctionDef) and m.name in COPY_HOOKS:
+                carries = any(isinstance(x, ast.Attribute) and x.attr in ('_metadata', '__dict__') for x in ast.walk(m)) \
+                    or any(isinstance(x, ast.Call) and ast.unparse(x.func) in ('vars', 'super') for x in ast.walk(m))
+                if not carries:
+                    bad('C14-copy-safe', f'{what}: {cls.name}.{m.name} rebuilds the object without its `_metadata`: a '
+                                         f'deepcopy / pickle round trip gives an equal object that has lost its position')
     return n
 
 
